@@ -47,6 +47,9 @@ func GenScenario(t *rapid.T, b Bias) Scenario {
 	}
 	if b.LargeReplicas && rapid.IntRange(0, 9).Draw(t, "large") == 0 {
 		s.Replicas = rapid.IntRange(100, 130).Draw(t, "replicas-large")
+	} else if rapid.IntRange(0, 3).Draw(t, "tiny") == 0 {
+		// tiny workloads: a step easily covers the whole workload (percent rounding, int steps)
+		s.Replicas = rapid.IntRange(1, 3).Draw(t, "replicas-tiny")
 	} else {
 		s.Replicas = rapid.IntRange(1, 10).Draw(t, "replicas")
 	}
@@ -195,4 +198,10 @@ func GenHistory(t *rapid.T, s Scenario, b Bias) []Action {
 		}
 	}
 	return out
+}
+
+// StepCoversAll: the step's planned replicas reach the whole workload of size n.
+func StepCoversAll(st StepSpec, n int) bool {
+	v := parseIntOrPercent(st.Replicas)
+	return planned(v, n) >= n
 }
